@@ -170,6 +170,112 @@ type c08History struct {
 	clock   time.Time
 	log     []string
 	sawJump, sawGap, sawStall bool
+	nextGroup                 int32
+}
+
+// emit registers the event in a (new or existing) group, sends it to both agents and logs it
+func (h *c08History) emit(ev *c08Event, mayJoin bool) {
+	rnd := h.w.Rnd
+	now := uint32(h.clock.Unix())
+	// join an existing group (same series, merges into rows) or start a new one
+	joined := false
+	if mayJoin && len(h.events) != 0 && rnd.IntN(3) == 0 {
+		o := h.events[rnd.IntN(len(h.events))]
+		if g := h.byGroup[o.group]; len(g) < 20 {
+			ev.group, ev.meta, ev.a, ev.b, ev.host, ev.top = o.group, o.meta, o.a, o.b, o.host, o.top
+			ev.digit = len(g)
+			if rnd.IntN(2) == 0 {
+				ev.ts = o.ts
+			}
+			joined = true
+		}
+	}
+	if !joined {
+		ev.group = h.nextGroup
+		h.nextGroup++
+		if rnd.IntN(2) == 0 {
+			ev.a = c08Strings[rnd.IntN(len(c08Strings))]
+		}
+		if rnd.IntN(2) == 0 {
+			ev.b = c08Strings[rnd.IntN(len(c08Strings))]
+		}
+		if rnd.IntN(5) == 0 {
+			ev.host = c08Strings[rnd.IntN(len(c08Strings))]
+		}
+		if rnd.IntN(5) == 0 {
+			ev.top = c08Strings[rnd.IntN(len(c08Strings))]
+		}
+	}
+	h.byGroup[ev.group] = append(h.byGroup[ev.group], ev)
+	h.events = append(h.events, ev)
+	h.send(ev)
+	h.logf("ev%d g=%d d=%d m=%d r=%d ts=%+d kind=%d", ev.idx, ev.group, ev.digit, ev.meta.MetricID, ev.meta.EffectiveResolution, int64(ev.ts)-int64(now), ev.kind)
+	h.w.Count("events.sent", 1)
+}
+
+// stallCycles is the systematic "consumer stall" shape: the flusher keeps ticking once per second while
+// BucketsToPreprocess is not drained for 0..12 s (the send cursor falls behind the clock second by second),
+// events keep arriving during the stall - mostly low-resolution metrics, future timestamps, timestamps that are
+// exact multiples of the resolution - and the stall is placed so that a multiple of 60 comes up inside it.
+func (h *c08History) stallCycles() {
+	rnd := h.w.Rnd
+	var lowRes []*format.MetricMetaValue
+	for _, m := range h.metas {
+		if m.EffectiveResolution >= 15 {
+			lowRes = append(lowRes, m)
+		}
+	}
+	tick := func(consumer int, events int, hostile bool) {
+		h.clock = h.clock.Add(time.Second)
+		h.flush(consumer)
+		h.logf("flush +1s consumer=%d", consumer)
+		h.w.Count("flush_iterations", 2)
+		now := uint32(h.clock.Unix())
+		for e := 0; e < events; e++ {
+			meta := h.metas[rnd.IntN(len(h.metas))]
+			if hostile && rnd.IntN(10) < 7 {
+				meta = lowRes[rnd.IntN(len(lowRes))]
+			}
+			res := uint32(meta.EffectiveResolution)
+			ev := &c08Event{idx: len(h.events), meta: meta, kind: rnd.IntN(3), clockMs: h.clock.UnixMilli()}
+			switch p := rnd.IntN(20); {
+			case p < 7:
+				ev.ts = now + 1 + uint32(rnd.IntN(10))
+			case p < 12:
+				ev.ts = (now+uint32(rnd.IntN(8)))/res*res + uint32(rnd.IntN(2))*res
+			case p < 14:
+				ev.ts = now - uint32(rnd.IntN(200))
+			case p < 17:
+				ev.ts = now
+			default:
+				ev.ts = now - uint32(rnd.IntN(4))
+			}
+			h.emit(ev, rnd.IntN(4) == 0)
+		}
+		if rnd.IntN(4) == 0 { // a second flush iteration inside the same second
+			h.clock = h.clock.Add(time.Duration(100+rnd.IntN(400)) * time.Millisecond)
+			h.flush(consumer)
+			h.clock = h.clock.Truncate(time.Second).Add(time.Duration(rnd.IntN(100)) * time.Millisecond)
+		}
+	}
+	for cycle := 1 + rnd.IntN(4); cycle > 0; cycle-- {
+		stall := rnd.IntN(13)
+		// approach: normal operation until the stall would contain (or be just before) a multiple of 60
+		startAt := uint32(60-rnd.IntN(stall+5)) % 60
+		for guard := 0; guard < 64 && uint32(h.clock.Unix())%60 != startAt; guard++ {
+			tick(0, rnd.IntN(2), false)
+		}
+		h.logf("stall %ds", stall)
+		h.w.Count("stalls", 1)
+		h.w.Count(fmt.Sprintf("stalls.len_%02d", stall), 1)
+		for sec := 0; sec < stall; sec++ {
+			tick(2, 6+rnd.IntN(20), true)
+		}
+		h.sawStall = true
+		for rec := 2 + rnd.IntN(8); rec > 0; rec-- { // recovery
+			tick(rnd.IntN(2), rnd.IntN(6), true)
+		}
+	}
 }
 
 func (h *c08History) logf(f string, a ...any) {
@@ -372,6 +478,12 @@ func c08RunHistory(r *verifkit.Run, w *verifkit.Worker, idx int) {
 	h.logf("shards=%d t0=%d partial=%d", h.nShards, h.t0, len(partial))
 
 	steps := 60 + rnd.IntN(340)
+	h.nextGroup = 1
+	if rnd.IntN(5) == 0 { // systematic consumer-stall shape, then a short generic tail
+		h.logf("profile=stall")
+		h.stallCycles()
+		steps = 10 + rnd.IntN(40)
+	}
 	stopAt := steps - rnd.IntN(12)
 	consumerMode := rnd.IntN(4) // 0 mostly fast, 1 mostly slow, 2 mixed, 3 with stalls
 	profile := rnd.IntN(10)     // 0-2 calm (normal operation), 3-6 mixed (rare jumps), 7-9 hostile
@@ -379,7 +491,7 @@ func c08RunHistory(r *verifkit.Run, w *verifkit.Worker, idx int) {
 		consumerMode = 0
 	}
 	h.logf("profile=%d consumerMode=%d", profile, consumerMode)
-	nextGroup := int32(1)
+	h.nextGroup = 1
 	for st := 0; st < steps; st++ {
 		if st == stopAt {
 			for ai := 0; ai < 2; ai++ {
@@ -393,7 +505,7 @@ func c08RunHistory(r *verifkit.Run, w *verifkit.Worker, idx int) {
 		case op < 6: // event
 			ev := &c08Event{idx: len(h.events), meta: h.metas[rnd.IntN(len(h.metas))], kind: rnd.IntN(3), clockMs: h.clock.UnixMilli()}
 			now := uint32(h.clock.Unix())
-			switch rnd.IntN(10) {
+			switch rnd.IntN(11) {
 			case 0:
 				ev.ts = 0
 			case 1, 2, 3:
@@ -408,43 +520,13 @@ func c08RunHistory(r *verifkit.Run, w *verifkit.Worker, idx int) {
 				ev.ts = now - uint32(rnd.IntN(8))
 			case 8:
 				ev.ts = now - 59 - uint32(rnd.IntN(70))
+			case 9: // exact multiple of the metric's resolution around now (rounds to itself)
+				res := uint32(ev.meta.EffectiveResolution)
+				ev.ts = (now+uint32(rnd.IntN(8)))/res*res + uint32(rnd.IntN(2))*res
 			default:
 				ev.ts = now + uint32(rnd.IntN(14)) - 7
 			}
-			// join an existing group (same series, merges into rows) or start a new one
-			joined := false
-			if len(h.events) != 0 && rnd.IntN(3) == 0 {
-				o := h.events[rnd.IntN(len(h.events))]
-				if g := h.byGroup[o.group]; len(g) < 20 {
-					ev.group, ev.meta, ev.a, ev.b, ev.host, ev.top = o.group, o.meta, o.a, o.b, o.host, o.top
-					ev.digit = len(g)
-					if rnd.IntN(2) == 0 {
-						ev.ts = o.ts
-					}
-					joined = true
-				}
-			}
-			if !joined {
-				ev.group = nextGroup
-				nextGroup++
-				if rnd.IntN(2) == 0 {
-					ev.a = c08Strings[rnd.IntN(len(c08Strings))]
-				}
-				if rnd.IntN(2) == 0 {
-					ev.b = c08Strings[rnd.IntN(len(c08Strings))]
-				}
-				if rnd.IntN(5) == 0 {
-					ev.host = c08Strings[rnd.IntN(len(c08Strings))]
-				}
-				if rnd.IntN(5) == 0 {
-					ev.top = c08Strings[rnd.IntN(len(c08Strings))]
-				}
-			}
-			h.byGroup[ev.group] = append(h.byGroup[ev.group], ev)
-			h.events = append(h.events, ev)
-			h.send(ev)
-			h.logf("ev%d g=%d d=%d m=%d r=%d ts=%+d kind=%d", ev.idx, ev.group, ev.digit, ev.meta.MetricID, ev.meta.EffectiveResolution, int64(ev.ts)-int64(now), ev.kind)
-			w.Count("events.sent", 1)
+			h.emit(ev, true)
 		case op < 9: // flush iteration after a clock step
 			var d time.Duration
 			pick := rnd.IntN(16)
